@@ -376,6 +376,21 @@ def run(ctx):
     ctx.rule("R19.1", "case tables of the arithmetic operations equal the mathematical tables; checked/unchecked agree; failure exactly on overflow / zero divisor", 8 * 24)
     ctx.rule("R19.2", "a zero result is observationally zero (eq, is_negative, cmp, Display)", 24)
     ctx.rule("R19.3", "observers (eq, cmp, partial_cmp, sign predicates, abs, invert_sign, Display) agree with the mathematical value; parsing uses the u128 parser", 40)
+    # the type's named constants: ZERO is the (non-negative) zero, MAX the largest magnitude with a positive sign,
+    # MIN the same magnitude with a negative sign - read from the compiler's evaluated values
+    import re as _re
+    want_consts = {"ZERO": ("0_u128", "false"), "MAX": ("u128::MAX", "false"), "MIN": ("u128::MAX", "true")}
+    for cname, (wv, wn) in sorted(want_consts.items()):
+        c_ = w.consts_by_pretty.get("margined_common::integer::Integer::" + cname)
+        if c_ is None:
+            ctx.lost("R19.3", "associated constant Integer::%s" % cname)
+            continue
+        val = c_.get("val", "")
+        mv_ = _re.search(r"Uint128\(([^)]*)\)", val)
+        mn_ = _re.search(r"negative: (true|false)", val)
+        okc = bool(mv_ and mn_ and mv_.group(1) == wv and mn_.group(1) == wn)
+        ctx.inst("R19.3", "constant:%s" % cname, okc, "%s:%s" % (c_.get("file", ""), c_.get("line", "")),
+                 "Integer::%s = %s (expected magnitude %s, negative: %s)" % (cname, val.replace("{{", "{").replace("}}", "}")[:120], wv, wn))
 
     def F(name):
         for f in w.crate_fns("margined_common"):
